@@ -1119,12 +1119,50 @@ class Engine(Interp):
             out.extend(self.drop_fields(s, list(v2[3]) if v2[0] == 'adt' else [], eff, depth))
         return out
 
+    def cursor_struct(self, path):
+        """struct { slots: &mut [MaybeUninit<_>], next: usize } of the crate: a hand-written front cursor over a
+        slice of slots (the layout a slice iterator has, spelled out).  Returns (slice field, cursor field)."""
+        c = self._cursor_structs.get(path, 0) if hasattr(self, '_cursor_structs') else 0
+        if c != 0:
+            return c
+        if not hasattr(self, '_cursor_structs'):
+            self._cursor_structs = {}
+        res = None
+        a = self.facts.adts.get(path)
+        if a is not None and a['kind'] == 'Struct' and a.get('local', True):
+            fields = [f for f in a['variants'][0]['fields']]
+            real = [(i, f) for i, f in enumerate(fields)
+                    if not (f['ty'].get('k') == 'adt' and f['ty']['path'].endswith('PhantomData'))]
+            if len(real) == 2:
+                sl = [i for i, f in real if f['ty'].get('k') == 'ref' and f['ty']['mut']
+                      and f['ty']['to'].get('k') == 'slice' and ty_is_mu(f['ty']['to']['elem'])]
+                ix = [i for i, f in real if f['ty'].get('k') == 'prim' and f['ty']['name'] == 'usize']
+                if len(sl) == 1 and len(ix) == 1:
+                    res = (sl[0], ix[0])
+        self._cursor_structs[path] = res
+        return res
+
+    def cursor_view(self, v):
+        """the slice-iterator view of a cursor struct value (None if v is not one, or its slice does not start
+        at the origin of its positions)"""
+        if not (isinstance(v, tuple) and v and v[0] == 'adt'):
+            return None
+        cs = self.cursor_struct(v[1])
+        if cs is None:
+            return None
+        r, nx = v[3][cs[0]], v[3][cs[1]]
+        if r[0] == 'ref' and r[2][0] == 'slice' and nx[0] == 'int' and r[2][2] == 0 and not isinstance(r[2][2], bool):
+            return ('sliceit', r[2][1], nx[1], r[2][3], True)
+        return None
+
     def sliceits_in(self, v, acc=None, depth=0):
         if acc is None:
             acc = []
         if isinstance(v, tuple) and v and depth < 8:
             if v[0] == 'sliceit':
                 acc.append(v)
+            elif v[0] == 'adt' and self.cursor_view(v) is not None:
+                acc.append(self.cursor_view(v))
             elif v[0] in ('adt',):
                 for x in v[3]:
                     self.sliceits_in(x, acc, depth + 1)
